@@ -157,6 +157,10 @@ func (x *Ex) genFuncsMore(body *LeanFile) {
 		{"", "", "ApplyForFile"},
 		{"", "", "ApplyForReader"},
 	})
+	// reference resolution (Model/AbsURL.lean)
+	x.bodyGroup(body, "urlBodies", []string{"C06", "C16"}, [][3]string{
+		{"internal/stringutil", "", "CreateAbsoluteURL"},
+	})
 	// tree helpers every stage leans on: the deep copy the converter works on (Model/Render.lean
 	// `dedupNode ∘ id`: a complete copy), ancestor tests, foreign raw-text test
 	x.bodyGroup(body, "domHelperBodies", []string{"C03", "C05", "C10", "C20"}, [][3]string{
